@@ -129,6 +129,25 @@ def main(prop, tier, seed, replay_path):
         # every serde variant in both tiers: a hand-maintained cfg list can be wrong for exactly
         # one (feature, serde) pair (seeded change C19-R2), so sampling them is not enough
         configs += serde_cfgs
+    # "builds without the standard library": on this host every selection links against std anyway, so a dependency
+    # that silently enables its own `std` feature (e.g. `default-features = false` lost in a manifest edit) would
+    # still build here and fail only on a bare-metal target.  What cargo resolved is observable: no normal (non-build,
+    # non-proc-macro) dependency of a selection without `std` may have a feature called "std" switched on.
+    graph_checked = 0
+    for name, fl in [("empty_selection", []), ("msg1005", ["msg1005"]), ("all_msgs_no_std", ["all_msgs"]), ("empty_selection+serde", ["serde"]), ("msg1005+serde", ["msg1005", "serde"]), ("msg1029+serde", ["msg1029", "serde"]), ("all_msgs_no_std+serde", ["all_msgs", "serde"])]:
+        if any(f.startswith("msg") and f not in feats for f in fl):
+            continue
+        cmd = ["cargo", "tree", "--offline", "--manifest-path", os.path.join(REPO, "Cargo.toml"), "-e", "features,no-proc-macro,no-build,no-dev", "--no-default-features"]
+        if fl:
+            cmd += ["--features", ",".join(fl)]
+        r = subprocess.run(cmd, stdout=subprocess.PIPE, stderr=subprocess.PIPE, text=True, env=dict(os.environ, CARGO_NET_OFFLINE="true"))
+        if r.returncode != 0:
+            inconclusive.append("cargo tree failed for %s: %s" % (name, r.stderr[-400:]))
+            continue
+        graph_checked += 1
+        bad = sorted(set(l.strip(" │├└─") for l in r.stdout.splitlines() if 'feature "std"' in l))
+        if bad:
+            violations.append(("C19.no_std_dependency_graph|%s" % name, "selection %s (default features off): the resolved dependency graph enables %s -- the crate would not build without the standard library" % (fl, "; ".join(bad[:4])), {"name": name, "features": fl, "kind": "dependency_graph"}))
     results = {}
     full = None
     if not inconclusive:
@@ -236,6 +255,7 @@ def main(prop, tier, seed, replay_path):
         "configurations_built_and_run": n_cfg_done,
         "message_features": len(feats),
         "corpus_frames": len(frames),
+        "dependency_graphs_checked_for_std_features": graph_checked,
         "per_configuration": per_cfg,
         "inconclusive_reasons": inconclusive,
     }
